@@ -378,6 +378,112 @@ class C07(Prop):
 
 
 # =====================================================================================
+
+# ---------- the three hand-written bias codecs, pattern by pattern ----------
+def _bias_patterns(w, rng, full, n_random):
+    if full:
+        return list(range(1 << w))
+    top = 1 << (w - 1)
+    ps = {0, 1, 2, 3, top - 1, top - 2, top, top + 1, top + 2, (1 << w) - 1, (1 << w) - 2, (1 << w) - 3}
+    ps |= {1 << i for i in range(w)} | {((1 << w) - 1) ^ (1 << i) for i in range(w)}
+    ps |= {rng.randrange(1 << w) for _ in range(n_random)}
+    return sorted(ps)
+
+
+def bias_expected_bits(p, w, res):
+    """(pattern as iN as f32) * res, computed exactly: the product of two f32 is exact in f64, then one rounding"""
+    v = p - (1 << w) if p >= 1 << (w - 1) else p
+    return f32_bits(float(v) * bits_f32(f32_bits(res)))
+
+
+def bias_pattern_ops(ctx, full=False, n_random=300):
+    """REDECODE of hand-built CRC-valid 1059 / 1065 / 1230 frames whose bias fields run through bit patterns
+    (boundary patterns and a random sample; every pattern when [full]).  The frames are canonical (satellites
+    ascending, exact counts, zero padding), so the re-encoded frame must be the frame itself."""
+    g = get_gen(ctx)
+    rng = ctx.rng
+    ops = []
+    for num, sat_bits in ((1059, 6), (1065, 5)):
+        if num not in g.layouts:
+            continue
+        hb = 12 + sum(g.fields[f["id"]]["len"] for _, f in g.layouts[num]["fields"] if f["k"] == "field")
+        table = g.ssr[str(num)]
+        per_sat = min(31, len(table))
+        pats = _bias_patterns(14, rng, full, n_random)
+        chunk = 12 * per_sat
+        for c0 in range(0, len(pats), chunk):
+            ps = pats[c0:c0 + chunk]
+            nsat = (len(ps) + per_sat - 1) // per_sat
+            bits = [(6, nsat)]
+            for s in range(nsat):
+                mine = ps[s * per_sat:(s + 1) * per_sat]
+                bits.append((sat_bits, s))
+                bits.append((5, len(mine)))
+                for i, pt in enumerate(mine):
+                    bits.append((5, table[i][2]))
+                    bits.append((14, pt))
+            total = hb + sum(wd for wd, _ in bits)
+            b = bytes(set_bits(bytes((total + 7) // 8), 0, 12, num))
+            off = hb
+            for wd, v in bits:
+                b = set_bits(b, off, wd, v)
+                off += wd
+            ops.append("REDECODE %s #biaspat:%d:%s" % (hx(mkframe(bytes(b))), num, ",".join("%x" % x for x in ps)))
+    if 1230 in g.layouts:
+        hb = 12 + sum(g.fields[f["id"]]["len"] for _, f in g.layouts[1230]["fields"] if f["k"] == "field")
+        pats = _bias_patterns(16, rng, full, n_random)
+        for c0 in range(0, len(pats), 4):
+            ps = pats[c0:c0 + 4]
+            mask = [0b1000, 0b1100, 0b1110, 0b1111][len(ps) - 1]
+            total = hb + 4 + 16 * len(ps)
+            b = bytes(set_bits(bytes((total + 7) // 8), 0, 12, 1230))
+            b = set_bits(b, hb, 4, mask)
+            for i, pt in enumerate(ps):
+                b = set_bits(b, hb + 4 + 16 * i, 16, pt)
+            ops.append("REDECODE %s #biaspat:1230:%s" % (hx(mkframe(bytes(b))), ",".join("%x" % x for x in ps)))
+    return ops
+
+
+def bias_pattern_probe(op, res):
+    """-> message | None for a '#biaspat' operation"""
+    toks, tag = tagged(op)
+    _, num, plist = tag.split(":")
+    num = int(num)
+    ps = [int(x, 16) for x in plist.split(",")]
+    w, step = (16, 0.02) if num == 1230 else (14, 0.01)
+    if res.startswith("PANIC") or res.startswith("HANG") or res.startswith("CRASH"):
+        return "decoding or re-encoding a %d frame panicked" % num
+    if not res.startswith("D1 VMsg%d(" % num):
+        return "a canonical %d frame (bias patterns %s..) decodes to %s" % (num, plist[:20], res[:30])
+    d1 = vt.parse_msg(res.split(" ")[1])
+    ents = d1[2][1][-1][1]
+    if len(ents) != len(ps):
+        return "%d: %d entries on the wire, %d decoded" % (num, len(ps), len(ents))
+    for e, pt in zip(ents, ps):
+        got = e[1][-1][1]
+        want = bias_expected_bits(pt, w, step)
+        if got != want:
+            return "%d: bias pattern %x decodes to %r, expected %r" % (num, pt, bits_f32(got), bits_f32(want))
+    if " E1ERR " in res:
+        return "%d: the decoded message (bias patterns %s..) is refused by the encoder: %s" % (num, plist[:20], res.split(" E1ERR ")[1][:30])
+    if "FRAMEERR" in res:
+        return "%d: re-encoding the decoded message gave an invalid frame" % num
+    e1 = res.split(" E1 ")[1].split(" ")[0]
+    if e1 != toks[1]:
+        # name the first pattern that does not come back
+        if " D2EQ true" not in res and " D2 " in res:
+            d2 = vt.parse_msg(res.split(" D2 ")[1].split(" ")[0])
+            if d2[0] == "Msg":
+                for e, e2, pt in zip(ents, d2[2][1][-1][1], ps):
+                    if e[1][-1][1] != e2[1][-1][1]:
+                        return "%d: bias pattern %x decodes to %r, which encodes to a pattern that decodes to %r" % (
+                            num, pt, bits_f32(e[1][-1][1]), bits_f32(e2[1][-1][1]))
+        return "%d: re-encoding the message decoded from a canonical frame does not reproduce the frame (bias patterns %s..)" % (num, plist[:20])
+    if " D2EQ true" not in res:
+        return "%d: a decoded message is not a fixed point of encode/decode" % num
+    return None
+
+
 def field_pattern_of_carrier(fd, c):
     """bit pattern (w bits) of a carrier value"""
     return enc_pattern(fd["ck"], fd["len"], c)
@@ -432,10 +538,14 @@ class C08(Prop):
         for fd in ctx.tables["fields"]:
             if fd["inv"] is not None:
                 ops.append("FENC %s N #absent" % fd["id"])
+        # the three hand-written bias fields (1059 / 1065: 14 bits, 0.01 m; 1230: 16 bits, 0.02 m), through whole frames
+        ops += bias_pattern_ops(ctx, full=(ctx.tier == "thorough"), n_random=300)
         return ops
 
     def probe(self, op, res, ctx):
         toks, tag = tagged(op)
+        if tag and tag.startswith("biaspat"):
+            return bias_pattern_probe(op, res)
         g = get_gen(ctx)
         fd = g.fields[toks[1]]
         w = fd["len"]
@@ -467,7 +577,7 @@ class C08(Prop):
         return None
 
     def nontrivial(self, op, res):
-        return op.startswith("FDEC")
+        return op.startswith("FDEC") or op.startswith("REDECODE")
 
 
 @register
@@ -853,11 +963,14 @@ class C16(Prop):
             for _ in range(n // 3):
                 ops.append("ROUNDTRIP " + g.gen_msg(1230, rng.choice(["valid", "hostile"])))
         ops += bias_hostile_frames(ctx)
+        ops += bias_pattern_ops(ctx, full=False, n_random=200 if ctx.tier == "quick" else 4000)
         return ops
 
     def probe(self, op, res, ctx):
         toks, tag = tagged(op)
         g = get_gen(ctx)
+        if tag and tag.startswith("biaspat"):
+            return bias_pattern_probe(op, res)
         if toks[0] == "DECODE":
             if res.startswith("PANIC") or res.startswith("HANG") or res.startswith("CRASH"):
                 return "decoding a code-bias frame with maximal counts panicked"
@@ -913,7 +1026,7 @@ class C16(Prop):
         return None
 
     def nontrivial(self, op, res):
-        return op.count("T{") >= 3 or op.startswith("DECODE")
+        return op.count("T{") >= 3 or op.startswith("DECODE") or op.startswith("REDECODE")
 
 
 # =====================================================================================
@@ -1338,14 +1451,14 @@ class C09(Prop):
     module = "C09"
     theorems = ["C09_well_formed_fresh", "C09_well_formed", "C09_no_wire_form", "C09_fits", "C09_put_no_panic",
                 "C09_encode_no_panic_plain", "C09_build_no_panic_plain", "C09_number_plain",
-                "C09_layouts_classified", "C09_encode_no_panic", "C09_build_total"]
+                "C09_layouts_classified", "C09_encode_no_panic", "C09_build_total", "C09_encoder_framed", "C09_number"]
     table_obligations = ["layouts_fit", "layouts_classified"]
-    partial_note = ("partial: frame shape (length 8..1029, 0xD3, six zero bits, length field, accepted by MessageFrame::new with the model's CRC-24Q) for every builder history, "
-                    "refusal of messages without a wire form, size bound and the bit writer's freedom from panics are proved for every message; for the 55 plain layouts it is also proved "
-                    "that the frame carries the message's own number; freedom from panics of encoding and of build_message is proved for every message of the table (C09_build_total: "
+    partial_note = ("proved in the model: frame shape (length 8..1029, 0xD3, six zero bits, length field, accepted by MessageFrame::new with the model's CRC-24Q) for every builder history, "
+                    "refusal of messages without a wire form, size bound, the bit writer's freedom from panics and the message's own number in the first 12 payload bits (C09_number) "
+                    "are proved for every message of the table; freedom from panics of encoding and of build_message is proved for every message of the table (C09_build_total: "
                     "plain layouts, MSM data segments with any identifiers / duplicates / inconsistent sets, SSR bias lists, 1230, 1029 text) in the model, which marks every overflow, "
-                    "out-of-range index, over-wide shift and push beyond capacity as Panic (the overflow-checks profile); that the optimised profile agrees, and the message number "
-                    "for the 53 non-plain layouts, are covered by the ENCODE/BUILDSEQ correspondence in both build profiles and the probes")
+                    "out-of-range index, over-wide shift and push beyond capacity as Panic (the overflow-checks profile); that the optimised profile agrees is covered by the ENCODE/BUILDSEQ "
+                    "correspondence in both build profiles and the probes")
     rule = ("ENCODE in both profiles on generated messages of all types: per field boundary / out-of-range / NaN / +-inf / huge values, empty and full lists, MSM with inconsistent "
             "satellite/signal sets and 0..70 mask cells, bias lists with wrapping counts, the three variants without a wire form; frames checked with an independent CRC; "
             "non-trivial = distinct messages")
@@ -1459,6 +1572,8 @@ class C01(Prop):
                     if not q:
                         continue
                     break
+        # canonical frames of the three hand-written bias codecs, every boundary bit pattern of the bias field
+        ops += bias_pattern_ops(ctx, full=False, n_random=100 if q else 3000)
         return ops
 
     def proj(self, op, res):
@@ -1468,6 +1583,8 @@ class C01(Prop):
         if res.startswith("PANIC"):
             return None      # C02 / C09
         g = get_gen(ctx)
+        if "#biaspat" in op:
+            return bias_pattern_probe(op, res)
         if op.startswith("ROUNDTRIP"):
             if not res.startswith("OK "):
                 return None
@@ -1608,6 +1725,12 @@ class C15(Prop):
                 for k in sorted(x for x in ns if 0 <= x <= cap):
                     mode = rng.choice(["valid", "valid", "hostile"]) if k < cap else "valid"
                     ops.append("ROUNDTRIP %s #n=%d" % (g.gen_msg(n, mode, n=min(k, min(caps)) if len(set(caps)) > 1 and k > min(caps) else k), k))
+                    # the same count with the smallest elements the types admit (every string empty)
+                    mm = g.gen_msg(n, "valid", n=min(k, min(caps)) if len(set(caps)) > 1 and k > min(caps) else k)
+                    m0 = vt.parse_msg(mm)
+                    m1 = ("Msg", m0[1], _empty_strings(m0[2]))
+                    if m1 != m0:
+                        ops.append("ROUNDTRIP %s #n=%d min" % (vt.show_msg(m1), k))
                 enc_full.append(("ENCODE " + g.gen_msg(n, "valid", n=min(caps)), n))
             else:
                 for _ in range(4):
@@ -1636,6 +1759,12 @@ class C15(Prop):
             cuts = range(2, len(pl)) if (ctx.tier == "thorough" or len(pl) < 40) else sorted(set([2, 3, len(pl) - 1, len(pl) - 2] + [rng.randrange(2, len(pl)) for _ in range(6)]))
             for c in cuts:
                 ops.append("DECODE %s #trunc:%d" % (hx(mkframe(pl[:c])), n))
+            # the same truncated frames followed by more bytes in the caller's buffer (a stream): the bytes behind the
+            # frame must not be taken for its body
+            tails = [pl + f[-3:] + f, bytes(rng.getrandbits(8) for _ in range(200)), bytes(300)]
+            for c in (cuts if ctx.tier == "thorough" else list(cuts)[:6]):
+                for t in (tails if ctx.tier == "thorough" else [tails[0], rng.choice(tails[1:])]):
+                    ops.append("DECODE %s #trunc+tail:%d" % (hx(mkframe(pl[:c]) + pl[c:] + t), n))
         return ops
 
     def probe(self, op, res, ctx):
@@ -1690,6 +1819,18 @@ class C15(Prop):
 
 def _all_fields_valid_mode(op):
     return False
+
+
+def _empty_strings(v):
+    """the same value with every string emptied (the smallest admissible element of a list of strings)"""
+    k = v[0]
+    if k == "C":
+        return ("C", [])
+    if k == "S":
+        return ("S", _empty_strings(v[1]))
+    if k in ("L", "T"):
+        return (k, [_empty_strings(x) for x in v[1]])
+    return v
 
 
 # =====================================================================================
